@@ -423,7 +423,9 @@ class Eval:
                         terms.append(g[2])
                 elif g[0] not in ("except", "try"):
                     terms.append(g)
-        terms.extend(v for v in self.env.values() if isinstance(v, tuple))
+        # the loop targets themselves (left bound to a component of the bound variable after the loop) are not a use of that component
+        own = (bv, T.idx(bv, T.num(0)), T.idx(bv, T.num(1)))
+        terms.extend(v for v in self.env.values() if isinstance(v, tuple) and v not in own)
         terms.extend(v for v in self.heap.values() if isinstance(v, tuple))
         terms.extend(k for k in self.heap if isinstance(k, tuple))
         for g, t, _ in self.summary.returns[r0:]:
